@@ -47,7 +47,8 @@ HEADER = ("From Coq Require Import ZArith QArith List Bool. Import ListNotations
           "From GW Require Import C10.SipFit.\nOpen Scope Q_scope.\n")
 THEOREMS = ["chosen_degree_is_lowest_permitted", "degree_lowest", "silent_means_met", "unmet_is_signalled",
             "reported_error_not_understated", "accepted_is_fitted", "deglist_sorted_in_range", "sip_decomposition",
-            "sip_reproduces_fit", "stored_iff", "crpix_one_based", "naxis_covers_box", "axis_remap_injective"]
+            "sip_reproduces_fit", "stored_iff", "order_keyword_covers_coefficients", "stored_within_order",
+            "order_keyword_too_small_refuted", "crpix_one_based", "naxis_covers_box", "axis_remap_injective"]
 SLACK = 1.3
 NOISE_DEG = 2e-11
 
@@ -360,6 +361,13 @@ def oracle(ctx, rng, p, kw, problems):
         problems.append((f"CTYPE = {c1!r}, {c2!r}: expected {exp} with projection {kw['projection']}", rec, None))
     if ("A_ORDER" in hdr) != c1.endswith("-SIP"):
         problems.append((f"CTYPE {c1!r} and A_ORDER presence disagree", rec, None))
+    # premise of order_keyword_covers_coefficients: no coefficient keyword lies beyond its order keyword (a standard reader ignores those)
+    import re as _re
+    for fam_ in ("A", "B", "AP", "BP"):
+        degs_ = [int(k.split("_")[1]) + int(k.split("_")[2]) for k in hdr if _re.fullmatch(fam_ + r"_\d+_\d+", k)]
+        if degs_ and (f"{fam_}_ORDER" not in hdr or max(degs_) > hdr[f"{fam_}_ORDER"]):
+            problems.append((f"{fam_}_ORDER = {hdr.get(fam_ + '_ORDER')} but coefficient keywords up to total degree {max(degs_)} are written: "
+                             "a standard reader drops them", rec, None))
     rs = hdr.get("RADESYS")
     if p["frame"] == "galactic":
         if rs is not None:
